@@ -4,7 +4,7 @@ TITLE = 'Mailbox cap and store size limit evict oldest-first and only what is ne
 DESIGN_REF = "DESIGN.md §4 C08"
 TECHNIQUE = "machine-checked proof in Coq + model/code correspondence check"
 LEVEL_TEXT = "proof: cap and size limit TOGETHER are covered explicitly (both_limits_delivery: cap evicts the oldest of the mailbox and only as many as necessary, then the size limit the shortest prefix of the store-wide order, both bounds afterwards, every message accounted for; both_limits_history) and by a dedicated generator family (120 histories per run in which the oldest message of the store sits in the mailbox that overflows its cap, cap and size eviction inside one AddMessage). In general, for every history and every (cap, maxBytes) incl. 0 = disabled: cap_bound, cap_keeps_newest, size_bound, evict_global_oldest_prefix (with minimality) on the abstract store, which the memory-store model (mem_refines_spec, all limits) and the file-store model (file_refines_spec, cap) refine operation by operation; accounting_exact (enforcer list = live messages in global arrival order, curSize = their total) and fits_then_retrievable are theorems about the memory-store model itself. Tie to /repo: correspondence check (about 700 histories per run over caps {0,1,2,5} x limits {0,1,4 KiB}, GetMessage of every id just returned, oracle = extracted spec). ALL C08 theorems quantify over SEQUENTIAL histories (one store operation at a time, the enforcer a synchronous sub-step): accounting_exact says the accounting never drifts along any sequential history; under interleavings of concurrent operations with the enforcer goroutine there is no theorem here that curSize equals the live total or that the limit holds at quiescence — that is C09's (its qstep oracle and forced schedules; the historical drift bug was an interleaving bug)."
-LEVEL_NOTE = "cap_bound / size_bound are stated on the abstract final state; by the refinement theorems every listing either model returns is that state's listing; scope: sequential histories only (see LEVEL_TEXT); negative MailboxMsgCap and byte limits that are not multiples of 1024 are not representable in scfg (harmless: mem.New multiplies maxkb by 1024, a negative cap disables the cap loop like 0)"
+LEVEL_NOTE = "cap_bound / size_bound are stated on the abstract final state; by the refinement theorems every listing either model returns is that state's listing; scope: sequential histories only (see LEVEL_TEXT); negative MailboxMsgCap and byte limits that are not multiples of 1024 are not representable in scfg (harmless: mem.New multiplies maxkb by 1024, a negative cap disables the cap loop like 0); tied to the source by the translator (go/cmd/pins/c07.go -> coq/Gen/StorePins.v, regenerated on every run): the file store id format / counter / path scheme (file_id_format_pinned), the functions that remove messages and those that emit the after-events (removal_paths_emit: every removal path of either store announces what it removes; AfterMessageStored is emitted by StoreManager.Deliver only), the order of the steps of the delivery paths (add_steps_pinned); evicts_iff_necessary gives both directions of 'only what is necessary' for the cap and for the size limit"
 RULE = ("random histories of deliveries of varying sizes (150 B - 5 KB, incl. oversize) interleaved with get/list/seen/remove/purge/visit under caps {0,1,2,5} x size limits {0,1,4 KiB}, 1-3 mailboxes; both stores for the cap, memory store for the size limit; "
         "characters; missing / not-yet-issued / bogus / 'latest' handles, double removes, purge-then-latest) on a fresh real "
         "memory store and a fresh real file store; distinct = distinct input line; non-trivial = at least one add and one "
